@@ -169,6 +169,9 @@ class HPS(Harness):
                                 fval=self.fval, fsd=self.fsd, u_success=[], y_success=[], f_success=[])
         fc0 = 10
         opts["max_fun_evals"] = fc0 + p.get("budget_left", 10)
+        # optim_state keeps the copy taken at construction; _init_optimization_ later reserves the final noisy samples
+        # out of options["max_fun_evals"] only
+        self.optim_state["max_fun_evals"] = opts["max_fun_evals"] + (int(opts["noise_final_samples"]) if level > 0 else 0)
         ys, sds, us, fc_before = [], [], [], []
         M = p.get("M", 0)
         Xlog = sym_array(eng, "X", (M, D)) if M else np.zeros((0, D))
